@@ -277,4 +277,99 @@ theorem lineLoop_lines (h : Hdr) : ∀ (ls : List Str) (ln : Nat) (st st' : BSt)
       · rw [hl1 x hx1]; simp only [List.length_cons]; omega
       · have := hl2 x hx2; simp only [List.length_cons]; omega
 
+
+/-- the opening token stands alone on its line: no comment text follows it -/
+def OpeningAlone (lines : List Str) : Prop :=
+  match lines with
+  | [] => True
+  | first :: _ => match matchStart first with
+    | some g => (groupText first g "comment").isEmpty = true
+    | none => True
+
+theorem openBlock_lines (lines : List Str) (lineno : Nat) (o : Option Opened) (d : List BDiag)
+    (h : openBlock lines lineno = .ok (o, d)) (halone : OpeningAlone lines) :
+    (∀ x ∈ d, lineno ≤ x.line ∧ x.line < lineno + lines.length) ∧
+    (∀ op, o = some op → op.lines.length + 1 ≤ lines.length) := by
+  unfold openBlock at h
+  cases lines with
+  | nil => simp at h
+  | cons first rest =>
+    simp only [OpeningAlone] at halone
+    simp only [] at h
+    split at h
+    · cases h; exact ⟨fun _ hx => (by cases hx), fun _ ho => (by cases ho)⟩
+    · rename_i g hg
+      rw [hg] at halone
+      split at h
+      · cases h
+        refine ⟨?_, fun _ ho => by cases ho⟩
+        intro x hx
+        rw [List.mem_singleton.mp hx]
+        simp [mkDiag]
+      · rename_i hn1
+        have hlen : 2 ≤ (first :: rest).length := by
+          cases rest with
+          | nil => simp at hn1
+          | cons _ _ => simp
+        -- the diagnostics of the two token lines
+        have hD : ∀ (a b c e : List BDiag), AllLine lineno a → AllLine lineno b →
+            AllLine (lineno + (first :: rest).length - 1) c → AllLine (lineno + (first :: rest).length - 1) e →
+            ∀ x ∈ a ++ b ++ c ++ e, lineno ≤ x.line ∧ x.line < lineno + (first :: rest).length := by
+          intro a b c e ha hb hc he x hx
+          simp only [List.mem_append] at hx
+          rcases hx with ((hx | hx) | hx) | hx
+          · rw [ha x hx]; omega
+          · rw [hb x hx]; omega
+          · rw [hc x hx]; omega
+          · rw [he x hx]; omega
+        split at h
+        · cases h
+        · split at h
+          · cases h
+            refine ⟨?_, fun _ ho => by cases ho⟩
+            intro x hx
+            have := hD _ _ [] [] (allLine_ite _ (allLine_nil _) (allLine_mkDiag _ _ _ _ _)) (allLine_nil lineno)
+              (allLine_nil _) (allLine_nil _) x (by simpa using hx)
+            exact this
+          · cases h
+            refine ⟨?_, ?_⟩
+            · intro x hx
+              exact hD _ _ _ _ (allLine_ite _ (allLine_nil _) (allLine_mkDiag _ _ _ _ _)) (allLine_nil lineno)
+                (allLine_ite _ (allLine_nil _) (allLine_mkDiag _ _ _ _ _))
+                (allLine_ite _ (allLine_nil _) (allLine_mkDiag _ _ _ _ _)) x hx
+            · intro op ho
+              cases ho
+              simp only []
+              split
+              · simp only [List.length_dropLast, List.length_cons]; omega
+              · simp only [List.length_append, List.length_dropLast, List.length_cons, List.length_nil]
+                cases rest with
+                | nil => simp at hn1
+                | cons _ _ => simp
+
+/-- Every diagnostic of the block state machine names a line of the block: with the opening token alone
+    on its line, the named line lies between the first and the last source line of the comment. -/
+theorem parseBlock_diag_lines (comment : Str) (lineno : Nat) (b : Option BlockM) (d : List BDiag)
+    (h : parseBlock comment lineno = .ok (b, d)) (halone : OpeningAlone (commentLines comment)) :
+    ∀ x ∈ d, lineno ≤ x.line ∧ x.line < lineno + (commentLines comment).length := by
+  unfold parseBlock parseBlockLines at h
+  split at h
+  · cases h
+  · rename_i d0 ho
+    cases h
+    exact (openBlock_lines _ _ _ _ ho halone).1
+  · rename_i op d0 ho
+    obtain ⟨hd0, hlen⟩ := openBlock_lines _ _ _ _ ho halone
+    split at h
+    · cases h
+    · rename_i st hl
+      cases h
+      obtain ⟨d1, hd1, hl1⟩ := lineLoop_lines op.hdr op.lines lineno _ st hl
+      have hlen' := hlen op rfl
+      intro x hx
+      rw [hd1] at hx
+      rcases List.mem_append.mp hx with h0 | h1
+      · exact hd0 x h0
+      · have := hl1 x h1; omega
+
 end GIVerif.AnnParse
